@@ -366,6 +366,38 @@ def f_src_compound(op, sym, wa, fa, wb, fb):
             % (op, wa, fa, wb, fb, da, db, pa, pb, ea, sym, eb, ea, sym, eb, ea, ea))
 
 
+def f_src_incdec(op, wa, fa):
+    da, pa, ea = f_operand(wa, fa, "a")
+    e = {"preinc": "auto&& r = ++%s;" % ea, "predec": "auto&& r = --%s;" % ea, "postinc": "auto r = %s++;" % ea, "postdec": "auto r = %s--;" % ea}[op]
+    return ("K uint64_t k_fid_%s_%s%s(uint64_t base, %s) { S::g_base = base; %s %s env_log(1, bits(r.UNSAFE_unverified()), 0, 0); return bits(%s.UNSAFE_unverified()); }"
+            % (op, wa, fa, da, pa, e, ea))
+
+
+def f_ref_incdec(op, fa):
+    e = {"preinc": "auto v = ++x;", "predec": "auto v = --x;", "postinc": "auto v = x++;", "postdec": "auto v = x--;"}[op]
+    return "K uint64_t r_fid_%s_%s(%s a) { auto x = fl_%s(a); %s env_log(1, bits(v), 0, 0); return bits(x); }" % (op, fa, FTYPES[fa][1], fa, e)
+
+
+def check_float_incdec(ctx, op, wa, fa, log=32):
+    base = ctx.sandbox_base(log)
+    ka, va = f_sym_operand(ctx, wa, fa, "a", base, 1 << log)
+    k = "k_fid_%s_%s%s" % (op, wa, fa)
+    kp, rp = run_pair(ctx, k, [base, ka], "r_fid_%s_%s" % (op, fa), [va])
+
+    def cond(p, q):
+        if q.status != "ret" or p.status != "ret":
+            return z3.BoolVal(False)
+        lp, lq = p.user.get("log") or [], q.user.get("log") or []
+        if len(lp) != 1 or len(lq) != 1:
+            return z3.BoolVal(False)
+        as_bv = lambda v: BV(v, 64) if isinstance(v, int) else v
+        return z3.And(p.ret == q.ret, as_bv(lp[0][1]) == as_bv(lq[0][1]))
+    cross(ctx, kp, rp, "%s stores and returns the same values as on the plain floating-point object (inexact steps included)" % op, cond)
+    ctx.expect(kp, ret=1)
+    if wa != "tv":
+        ctx.validate(k, [[0x300000000, x] for x in FVEC[FTYPES[fa][2]] + ([0x3dcccccd, 0x4b800000] if fa == "f" else [0x3fb999999999999a, 0x4340000000000000])])
+
+
 def check_float_unary(ctx, wa, fa, log=32):
     base = ctx.sandbox_base(log)
     ka, va = f_sym_operand(ctx, wa, fa, "a", base, 1 << log)
@@ -471,6 +503,13 @@ def float_jobs(tier):
                 refs.append("K uint64_t r_fun_neg_%s(%s a) { return bits(-fl_%s(a)); }" % (fa, FTYPES[fa][1], fa))
                 for wa in ("t", "tv"):
                     items.append((f_src_unary(wa, fa), dict(name="fun neg %s%s" % (wa, fa), fn=check_float_unary, kw=dict(wa=wa, fa=fa))))
+            if fa == fb:
+                for op in ("preinc", "predec", "postinc", "postdec"):
+                    refs.append(f_ref_incdec(op, fa))
+                    for wa in ("t", "tv"):
+                        if wa == "tv" and op.startswith("post"):
+                            continue   # does not compile (copying a tainted_volatile is private), as for the integer types
+                        items.append((f_src_incdec(op, wa, fa), dict(name="fid %s %s%s" % (op, wa, fa), fn=check_float_incdec, kw=dict(op=op, wa=wa, fa=fa))))
             for op, sym in (FARITH if tier == "thorough" else FARITH[:1] + FARITH[2:3]):
                 refs.append("K uint64_t r_fca_%s_%s%s(%s a, %s b) { auto x = fl_%s(a); x %s= fl_%s(b); return bits(x); }" % (op, fa, fb, FTYPES[fa][1], FTYPES[fb][1], fa, sym, fb))
                 for wa, wb in (("t", "p"), ("t", "t"), ("tv", "p"), ("tv", "t"), ("t", "tv")):
